@@ -6,6 +6,8 @@ import (
 	"sync/atomic"
 	"time"
 
+	"github.com/kubewharf/kubebrain/pkg/backend"
+
 	"verif/internal/harness"
 )
 
@@ -42,12 +44,13 @@ func init() {
 		{"watch-overflow+subscribers-joining-leaving", runC19OverflowChurn},
 		{"lock-candidates(C14 concurrent)", runC14Concurrent},
 		{"two-nodes-follower-reads(C18 stress)", func(c *harness.Case) { runC18TwoNodes(c, false, false) }},
+		{"watch-catch-up-on-a-small-wrapping-cache", runC19CatchUp},
 		{"follower-becomes-leader(C15 fail-over)", func(c *harness.Case) { c.Index = (c.Index / 6) * 6; runC15(c) }},
 	}
 	Registry["C19"] = &Prop{
 		Plan: func(tier string) Plan {
 			return Plan{Level: "exploration", Race: true, NCases: pick(tier, 5, 150) * len(c19Items), Batch: 3, CaseTimeout: 150,
-				Rule: "the worker is built with -race (GORACE halt_on_error=0, log_path) and runs the concurrent workloads of C04 (writers, point and range readers, injected errors), C06 (observers, watchers, compactor), C05 (watchers joining/leaving/overflowing), C07 (compaction against writers), C09 (async retry after injected unknown outcomes) C14 (lock candidates), C15 (a follower serving concurrent reads, then taking over) and C18 (leader/follower pair with the real revision syncer) on memkv and Badger with production sequencer timing, each repeated with different seeds. " +
+				Rule: "the worker is built with -race (GORACE halt_on_error=0, log_path) and runs the concurrent workloads of C04 (writers, point and range readers, injected errors), C06 (observers, watchers, compactor), C05 (watchers joining/leaving/overflowing), C07 (compaction against writers), C09 (async retry after injected unknown outcomes) a small watch cache (8-64 events) that wraps under continuous writers while watches from revisions still inside it are registered, C14 (lock candidates), C15 (a follower serving concurrent reads, then taking over) and C18 (leader/follower pair with the real revision syncer) on memkv and Badger with production sequencer timing, each repeated with different seeds. " +
 					"oracle = number of 'WARNING: DATA RACE' blocks whose access stacks contain a frame in github.com/kubewharf/kubebrain/ (this covers huandu/skiplist reached through memkv and Badger reached through the adapter), deduplicated by the pair of innermost kubebrain functions. " +
 					"non-trivial+distinct = workload kinds x seeds that ran to completion under the detector",
 				Assumptions: []string{"the race detector only sees the executions produced; reports entirely inside the TiKV mock or the harness are listed separately and do not decide the property",
@@ -154,4 +157,79 @@ loop:
 	c.Stat("subscribe_cancel_cycles_during_overflow", atomic.LoadInt64(&churns))
 	c.Stat("batches_drained_from_dropped_watcher", int64(drained))
 	c.Stat("events_delivered_to_healthy_watcher", atomic.LoadInt64(&delivered))
+}
+
+// runC19CatchUp: a watch cache of 8-64 events that wraps continuously under two writers, while several clients
+// register watches from revisions that are still inside the cache (catch-up from the ring) and read a few batches.
+func runC19CatchUp(c *harness.Case) {
+	r := c.Rng
+	size := []int{8, 16, 64}[r.Intn(3)]
+	eng, err := harness.NewEngine("memkv")
+	if err != nil {
+		c.Inconclusive(err.Error())
+		return
+	}
+	defer eng.Close()
+	n := harness.NewNode(harness.NodeOpts{KV: eng.KV, NoIdleYield: true, Config: backend.Config{WatchCacheSize: size}})
+	defer n.Retire()
+	P := harness.Prefix + "/cu/"
+	var stop int32
+	var wg sync.WaitGroup
+	var writes, watches, caught int64
+	for w := 0; w < 2; w++ {
+		wg.Add(1)
+		go func(w int) {
+			defer wg.Done()
+			key := P + string(rune('a'+w))
+			out := n.Do(harness.SeqOp{Kind: "create", Key: key, Val: []byte("v")})
+			last := out.Rev
+			for atomic.LoadInt32(&stop) == 0 {
+				o := n.Do(harness.SeqOp{Kind: "update", Key: key, Val: []byte("v"), Exp: last})
+				if o.Err == "" && o.Succeeded {
+					last = o.Rev
+				}
+				atomic.AddInt64(&writes, 1)
+			}
+		}(w)
+	}
+	for g := 0; g < 4; g++ {
+		wg.Add(1)
+		rr := newRand(r.Int63())
+		go func() {
+			defer wg.Done()
+			for atomic.LoadInt32(&stop) == 0 {
+				cur := n.Committed()
+				back := uint64(rr.Intn(size))
+				if cur < n.Start+back+1 {
+					continue
+				}
+				ctx, cancel := context.WithCancel(context.Background())
+				ch, werr := n.B.Watch(ctx, P, cur-back)
+				atomic.AddInt64(&watches, 1)
+				if werr == nil {
+					for i := 0; i < 3; i++ {
+						select {
+						case evs, ok := <-ch:
+							if ok && len(evs) > 0 && evs[0].Revision <= cur {
+								atomic.AddInt64(&caught, 1)
+							}
+						case <-time.After(20 * time.Millisecond):
+						}
+					}
+				}
+				cancel()
+				if werr == nil {
+					for range ch {
+					}
+				}
+			}
+		}()
+	}
+	time.Sleep(1500 * time.Millisecond)
+	atomic.StoreInt32(&stop, 1)
+	wg.Wait()
+	c.Stat("catch_up_cache_size", int64(size))
+	c.Stat("catch_up_writes", atomic.LoadInt64(&writes))
+	c.Stat("catch_up_watches_registered", atomic.LoadInt64(&watches))
+	c.Stat("catch_up_watches_served_from_the_cache", atomic.LoadInt64(&caught))
 }
